@@ -3,6 +3,7 @@ package main
 import (
 	"bufio"
 	"encoding/json"
+	"sort"
 	"fmt"
 	"os"
 	"path/filepath"
@@ -354,17 +355,61 @@ type accFact struct {
 	RetW, Lo, Hi, ArrN       int
 }
 
+// factsFromLayout derives one generator fact per pinned accessor pair by reflection on the real type: the generator must not
+// depend on what the translator managed to recognise (an accessor whose body falls outside the IR still has to be exercised).
+func factsFromLayout() []accFact {
+	lay := loadLayout()
+	var keys []string
+	for k := range lay {
+		keys = append(keys, k)
+	}
+	sort.Strings(keys)
+	var out []accFact
+	for _, k := range keys {
+		e := lay[k]
+		mk, ok := nasTypeRegistry[e.Type]
+		if !ok {
+			continue
+		}
+		pv := reflect.ValueOf(mk())
+		v := pv.Elem()
+		g, s := pv.MethodByName("Get"+e.Field), pv.MethodByName("Set"+e.Field)
+		if !g.IsValid() || !s.IsValid() || g.Type().NumOut() != 1 || s.Type().NumIn() != 1 {
+			continue
+		}
+		f := accFact{Type: e.Type, Field: e.Field, R0: e.R0, R1: e.R1, SBit: e.SBit, Len: e.Len, Inf: e.Inf, Lo: e.R0, Hi: e.R1 + 1}
+		if o := v.FieldByName("Octet"); o.IsValid() {
+			if o.Kind() == reflect.Uint8 {
+				f.Store = "octet"
+			} else {
+				f.Store, f.ArrN = "arr", o.Len()
+			}
+		} else if b := v.FieldByName("Buffer"); b.IsValid() {
+			f.Store = "buf"
+		} else {
+			continue
+		}
+		rt := g.Type().Out(0)
+		switch rt.Kind() {
+		case reflect.Uint8, reflect.Uint16, reflect.Uint32, reflect.Uint64:
+			f.Kind, f.RetW = "scalar", rt.Bits()
+		case reflect.Array:
+			f.Kind = "fixed"
+		case reflect.Slice:
+			f.Kind = "fixed"
+			if e.Inf {
+				f.Kind = "tail"
+			}
+		default:
+			continue // text conversions (DNN) are C14's subject
+		}
+		out = append(out, f)
+	}
+	return out
+}
+
 func genAcc(g *Gen, w *bufio.Writer) {
-	b, err := os.ReadFile(filepath.Join(g.Facts, "accessors.json"))
-	if err != nil {
-		fmt.Fprintln(os.Stderr, err)
-		os.Exit(2)
-	}
-	var fs []accFact
-	if err := json.Unmarshal(b, &fs); err != nil {
-		fmt.Fprintln(os.Stderr, err)
-		os.Exit(2)
-	}
+	fs := factsFromLayout()
 	per := g.N
 	for _, f := range fs {
 		size := 1
@@ -372,13 +417,17 @@ func genAcc(g *Gen, w *bufio.Writer) {
 		case "arr":
 			size = f.ArrN
 		case "buf":
-			size = f.R1 + 1 + g.Intn(3)
+			size = f.R1 + 1
 			if f.Kind != "scalar" && f.Hi > size {
-				size = f.Hi + g.Intn(3)
+				size = f.Hi
 			}
 		}
 		contents := func(k int) []byte {
-			c := make([]byte, size)
+			sz := size
+			if f.Store == "buf" && k%3 != 0 {
+				sz += 1 + g.Intn(3) // the minimal buffer that contains the field, and longer ones
+			}
+			c := make([]byte, sz)
 			switch k {
 			case 0:
 			case 1:
@@ -386,7 +435,7 @@ func genAcc(g *Gen, w *bufio.Writer) {
 					c[i] = 0xff
 				}
 			default:
-				copy(c, g.Bytes(size))
+				copy(c, g.Bytes(sz))
 			}
 			return c
 		}
